@@ -160,16 +160,23 @@ Definition wstep_gen (fresh rel : bool) (w : world) (o : wop) : res (world * out
   | WLookup i name => Ok (lookup_op w i name)
   | WILookup i name => Ok (ilookup_op w i name)
   | WRegister j i k =>
+    _ <- check (Nat.ltb j (length (owns w))) ;;             (* the owner variable exists (model bookkeeping) *)
     r <- register_cb w i k ;;
     let '(w1, n) := r in
     w2 <- (if rel then owner_unregister fresh w1 j else Ok w1) ;;
     Ok (set_owner w2 j (Some (i, k)), ONat n)
   | WUnregister j => w' <- owner_unregister fresh w j ;; Ok (w', ODone)
   | WMoveCtor j j2 =>
+    (* a constructor builds a NEW object: the slot j must be inert (otherwise the step is not a move construction: skipped) *)
     if Nat.eqb j j2 then Ok (w, ODone) else
-    Ok (set_owner (set_owner w j (cb_owner_at w j2)) j2 None, ODone)
+    _ <- check (Nat.ltb j (length (owns w))) ;;             (* the target variable exists (model bookkeeping) *)
+    match cb_owner_at w j with
+    | Some _ => Ok (w, ODone)
+    | None => Ok (set_owner (set_owner w j (cb_owner_at w j2)) j2 None, ODone)
+    end
   | WMoveAssign j j2 =>
     if Nat.eqb j j2 then Ok (w, ODone) else
+    _ <- check (Nat.ltb j (length (owns w))) ;;
     w1 <- (if rel then owner_unregister fresh w j else Ok w) ;;
     Ok (set_owner (set_owner w1 j (cb_owner_at w1 j2)) j2 None, ODone)
   | WIsUnreg j => Ok (w, OBool (match cb_owner_at w j with None => true | Some _ => false end))
